@@ -123,8 +123,8 @@ def run(ctx, replay=None):
     if len(progs) < 100:
         raise tlc.MachineryError('too few programs printed')
     jobs = [(p,) for p in progs]
-    for _ in range(ctx.pick(1500, 30000)):
-        jobs.append((gen_struct.rprogram(rnd, maxdepth=rnd.choice(ctx.pick([3, 4, 5, 6], [3, 5, 6, 8]))), None, False))
+    for _ in range(ctx.pick(1500, 20000)):
+        jobs.append((gen_struct.rprogram(rnd, maxdepth=rnd.choice(ctx.pick([3, 4, 5, 6], [3, 4, 5, 6, 7]))), None, False))
     # parse-only programs (C07 is static): loops on literal conditions with and without break, an if on a literal; and the random
     # programs once more with layout-neutral trailing blanks / tabs on every line
     lit = ['1', '0', 'true', 'null', "'s'", '2.5']
@@ -143,6 +143,6 @@ def run(ctx, replay=None):
             nontrivial=lambda c: len(c['reserved']) > 0)
     ctx.notes['enumerated_programs_parsed'] = len(progs)
     return F.finish(ctx, rule='every program of StructFamily to the stated depth (WellFormed(Lower(p)) by TLC) and the real '
-                    'parse_script output of every enumerated program of the printed depth plus random programs to depth 8 '
+                    'parse_script output of every enumerated program of the printed depth plus random programs to depth 7 '
                     '(WellFormed evaluated by TLC on the real model, validate_script, lint label warnings); non-trivial = the '
                     'model contains reserved labels', exhaustive=True)
